@@ -220,6 +220,10 @@ def run(ctx):
     ctx.evaluate("verdict/direct", dcases, check_verdict, in_known=known_class, nontrivial=nt)
     ctx.evaluate("verdict/default", kcases2, check_verdict, in_known=known_class, nontrivial=nt)
     ctx.evaluate("flags", [c for c in cases if c["setters"]], check_flags, in_known=known_class, nontrivial=nt)
+    # the same operand objects compared twice with an in-place change in between (state kept on the operands)
+    rrng = ctx.rng("repeat")
+    rcases = [dict(c, seed=rrng.randrange(10**9), n=rrng.randrange(1, 3)) for c in (kcases2[: ctx.budget(1000, 14000)] + dcases[: ctx.budget(500, 6000)])]
+    ctx.evaluate("repeat", rcases, cc.check_repeat)
     # ---- the known-finding classes are exercised on purpose (model and implementation must agree there too)
     rng = ctx.rng("collisions")
     pool = [1, "1", None, "None", True, "True", "", {}, 1.0, "1.0", [1], "[1]", [{"x": 1, "y": 2}], "a"]
